@@ -116,23 +116,33 @@ func (e *Engine) eval(c *evalCtx, x Expr) Val {
 	case *EQuant:
 		nc := c
 		var bnd []*Term
+		var qvars []qVar
 		for _, v := range n.Vars {
 			T := e.resolveType(v.Type, c.pkg)
 			if T == nil {
 				panic(fmt.Errorf("unknown type %s in quantifier", v.Type))
 			}
 			ss := leafSorts(T)
-			if len(ss) != 1 {
-				panic(fmt.Errorf("quantified variable of non-scalar type %s", v.Type))
+			L := make([]*Term, len(ss))
+			for i, srt := range ss {
+				nm := v.Name
+				if len(ss) > 1 {
+					nm = fmt.Sprintf("%s_%d", v.Name, i)
+				}
+				L[i] = BoundCanon(nm, c.qdepth, srt)
+				bnd = append(bnd, L[i])
 			}
-			b := BoundCanon(v.Name, c.qdepth, ss[0])
-			bnd = append(bnd, b)
-			nc = nc.with(v.Name, Val{T, []*Term{b}})
+			qvars = append(qvars, qVar{v.Name, T, L})
+			nc = nc.with(v.Name, Val{T, L})
 		}
 		nc.qdepth = c.qdepth + 1
 		body := e.evalBool(nc, n.Body)
 		if n.Forall {
-			return boolVal(Forall(bnd, body))
+			q := Forall(bnd, body)
+			if q.Op == OForall {
+				quantInfo[q] = &qInfo{Vars: qvars, Body: body}
+			}
+			return boolVal(q)
 		}
 		return boolVal(Exists(bnd, body))
 	case *ETypeAssert:
